@@ -142,9 +142,9 @@ pub fn c09(g: &mut G) {
         }
     }
     // a file large enough for 4-byte deltas (16 MiB+), read by an independent decoder (implementation only)
-    g.emit("!scale bigfile set 17".into());
+    g.emit("!scale bigfile set 21".into());
     if g.thorough {
-        g.emit("!scale bigfile map 17".into());
+        g.emit("!scale bigfile map 21".into());
     }
     // a file large enough for 3-byte deltas (64 KiB+)
     let mut rng = Rng::new(g.rng.next());
@@ -230,7 +230,7 @@ pub fn c10(g: &mut G) {
         }
     }
     // 16 MiB+ files as written by earlier releases (4-byte address deltas), read by the crate
-    g.emit("!scale bigfile map 17 old".into());
+    g.emit("!scale bigfile map 21 old".into());
     // header grid: versions × lengths 0..40
     let versions: [u64; 7] = [0, 1, 2, 3, 4, 1 << 32, u64::MAX];
     for &v in &versions {
@@ -468,7 +468,7 @@ pub fn c15(g: &mut G) {
 }
 
 pub fn c16(g: &mut G) {
-    g.emit("!scale bigfile map 17".into());
+    g.emit("!scale bigfile map 21".into());
     // every subset of the strings of length <= 2 over {a,b} with values around 2^32 / 2^56:
     // sibling subtrees whose minima need 5+ byte outputs on the inner transitions
     let u = universe(b"ab", 2);
